@@ -102,6 +102,16 @@ void Precedence::bvisit(const ComplexDouble &x)
 {
     precedence = PrecedenceEnum::Add;
 }
+
+void Precedence::bvisit(const Infty &x)
+{
+    // "-oo" starts with a sign, like a negative Integer
+    if (x.is_negative_infinity()) {
+        precedence = PrecedenceEnum::Mul;
+    } else {
+        precedence = PrecedenceEnum::Atom;
+    }
+}
 #ifdef HAVE_SYMENGINE_MPFR
 void Precedence::bvisit(const RealMPFR &x)
 {
